@@ -27,6 +27,9 @@ def main():
         if a.only and a.only not in s:
             continue
         patch = os.path.join(sd, s, "patch.diff")
+        meta = os.path.join(sd, s, "meta.json")
+        if os.path.exists(meta) and "retired" in json.load(open(meta)):
+            continue
         if os.path.exists(patch):
             for p in props:
                 jobs.append(("seeded", s, p, patch))
